@@ -27,8 +27,21 @@ RULE = (
     "s_r^T H_rr s_r, slogdet((F+H)_rr), slogdet(H_rr) with r = the parameters of the regularized objects (index set "
     "computed from the case, not from the inversion), evidence = -(chi2 + sHs + logdet(F+H) - logdet(H) + norm)/2, "
     "figure of merit == evidence iff an inversion is present else == log likelihood. Metamorphic: the two native "
-    "evaluations (different masked garbage) give bit-identical scalars. Non-trivial = the mask has masked pixels "
-    "carrying non-zero garbage, or the linear-object list is partially unregularized; distinct = SHA-1 of the "
+    "evaluations (different masked garbage) give bit-identical scalars. scale: the fit cases with magnitudes floored at "
+    "2**-20 (exact zeros in the data kept as a class) evaluated at unit 1 and with data, noise, model and sky all "
+    "multiplied by 2**e, e in -100..60, or by a non-power (3e-10, 7.3e-21, 4.1e11): the same oracle (all its tolerances "
+    "are relative to the operands) plus the relation that normalized residuals, chi-squared map, S/N, residual flux "
+    "fraction, chi-squared and reduced chi-squared are unchanged (rtol 1e-12, atol 0 for powers of two), residuals "
+    "scale and the noise normalization shifts by 2 n log(scale); util also draws such a scale. multi: 2-4 scenarios "
+    "(the previous one with other regularization coefficients or other noise and data = same sizes; the same imaging "
+    "with new objects; an unrelated scenario) solved one after the other in one process through aa.Inversion with "
+    "`preloads` omitted and `settings` omitted in two thirds of the scenes, each followed by a fit; data vector, F+H "
+    "and H are compared with B^T N^-1 d, B^T N^-1 B (+eps) + H built from vp/ref/conv.py and the linear objects' own "
+    "regularization matrices, then terms and evidence as in `evidence`, then reconstruction and terms against the "
+    "same scene solved in isolation (fresh objects, explicit fresh Preloads / settings); finally every Preloads / "
+    "SettingsInversion instance bound as a default argument of the inversion entry points must equal a freshly "
+    "constructed one attribute by attribute. Non-trivial = the mask has masked pixels carrying non-zero garbage, or "
+    "the linear-object list is partially unregularized, or (scale, multi) every case; distinct = SHA-1 of the "
     "canonical case."
 )
 ASSUMPTIONS = [
@@ -47,6 +60,13 @@ ASSUMPTIONS = [
     "when cond((F+H)_rr) or cond(H_rr) exceeds 1e12",
     "a quantity whose input quantity already failed (data flow residual -> chi-squared map -> chi-squared -> likelihood -> "
     "evidence) is not compared again, so one root cause is reported under one key",
+    "sub-checks evidence builds its inversion with an explicit fresh Preloads() so that cases are independent and replays "
+    "reproduce; state shared through the default arguments is the business of sub-check multi, where a leak shows inside "
+    "one case (keys multi/later/...) and, because workers are long-lived, possibly in the first scene of later cases too",
+    "scale: a change of units by an exact power of two commutes with every floating-point operation of the definitions as "
+    "long as nothing under/overflows, which the 2**-20 floor on the generated magnitudes and the exponent range -100..60 "
+    "guarantee; where data is exactly 0 the statement defines S/N, residuals and chi-squared (compared) but not "
+    "residual/data (excluded, counted)",
     "the content of masked entries of the returned native maps is not constrained (the statement is about unmasked "
     "pixels); only their shape is",
 ]
@@ -150,7 +170,108 @@ def util_cases(draw):
             "container": draw(st.sampled_from(["ndarray", "array2d"])),
             "mask_kind": draw(st.sampled_from(["Mask2D", "ndarray"])),
             "scalars": draw(st.lists(gens.reals(-50, 50), min_size=5, max_size=5)),
+            "scale": draw(st.one_of(st.just(1.0), st.just(1.0), st.sampled_from(POW2_EXPS).map(lambda e: 2.0 ** e),
+                                    st.sampled_from(NONPOW_SCALES))),
             "g1": g[0], "g2": g[1]}
+
+
+FLOOR = 2.0 ** -20
+POW2_EXPS = (-100, -80, -60, -40, -30, -20, -10, 10, 20, 40, 60)
+NONPOW_SCALES = (3e-10, 7.3e-21, 4.1e11)
+
+
+def _floored(v):
+    """Magnitudes stay in [2**-20, ...] (or exactly 0 where a class asks for it) so that a unit change by up to 2**-100
+    cannot underflow."""
+    return v if abs(v) >= FLOOR else math.copysign(FLOOR, v if v != 0.0 else 1.0)
+
+
+def _scales(draw, n):
+    out = []
+    for _ in range(n):
+        if draw(st.integers(0, 3)) == 0:
+            out.append(draw(st.sampled_from(NONPOW_SCALES)))
+        else:
+            out.append(2.0 ** draw(st.sampled_from(POW2_EXPS)))
+    return out
+
+
+@st.composite
+def scale_cases(draw):
+    mask = draw(gens.masks(lo=1, hi=6, min_unmasked=1))
+    n = sum(1 for r in mask for v in r if not v)
+    k = sum(1 for r in mask for v in r if v)
+    dk = draw(st.sampled_from(["positive", "any", "negative", "with-zeros", "with-zeros"]))
+    data = [(_floored(v) if v != 0.0 or dk != "with-zeros" else 0.0) for v in _data_values(draw, n, dk)]
+    mk = draw(st.sampled_from(["any", "near-data", "equal-data"]))
+    if mk == "any":
+        model = [_floored(v) for v in draw(st.lists(gens.reals(-10, 10), min_size=n, max_size=n))]
+    elif mk == "near-data":
+        dm = draw(st.lists(gens.reals(-1, 1), min_size=n, max_size=n))
+        model = [d + _floored(e) for d, e in zip(data, dm)]
+    else:
+        model = list(data)
+    sky = _sky(draw)
+    g = draw(garbage_sets(k))
+    return {"mask": mask, "pixel_scales": draw(gens.pixel_scales()), "data": data, "data_kind": dk,
+            "noise": draw(st.lists(gens.positives(0.05, 10.0), min_size=n, max_size=n)),
+            "model": model, "model_kind": mk, "sky": sky if sky == 0.0 else _floored(sky),
+            "scales": _scales(draw, 2), "g1": g[0]}
+
+
+_COEFF_FIELDS = ("coefficient", "coefficient_neighbor", "coefficient_zeroth", "inner_coefficient", "outer_coefficient")
+
+
+def _json_copy(x):
+    import json
+    return json.loads(json.dumps(x))
+
+
+@st.composite
+def multi_cases(draw):
+    """2-4 scenarios evaluated one after the other in one process.  Later scenarios are the first one with other
+    regularization coefficients / noise (same sizes: a leaked matrix or scalar fits silently), the same imaging with
+    new linear objects, or an unrelated scenario."""
+    kw = dict(max_objs=2, img_kwargs=dict(max_inner=4, max_k=3, kernel_kinds=("nonneg", "normalised", "signed")),
+              obj_kwargs=dict(max_sub=2, max_mesh=4, reg_types=REG_TYPES, reg_none=True))
+
+    def force_reg(c):
+        if all(o.get("reg") is None for o in c["objs"]):
+            o = c["objs"][draw(st.integers(0, len(c["objs"]) - 1))]
+            o["reg"] = draw(scene.reg_specs(("constant",) if o["type"] == "func" else REG_TYPES, allow_none=False))
+        return c
+
+    first = force_reg(draw(scene.scenarios(**kw)))
+    scenes = [first]
+    kinds = ["first"]
+    for _ in range(draw(st.integers(1, 3))):
+        kind = draw(st.sampled_from(["other-coefficients", "other-coefficients", "other-noise", "new-objects", "new-scenario"]))
+        if kind == "other-coefficients":
+            c = _json_copy(scenes[-1])
+            f = draw(st.sampled_from([0.01, 0.1, 0.5, 3.0, 10.0, 37.5]))
+            for o in c["objs"]:
+                if o.get("reg"):
+                    for fld in _COEFF_FIELDS:
+                        if fld in o["reg"]:
+                            o["reg"][fld] = o["reg"][fld] * f
+        elif kind == "other-noise":
+            c = _json_copy(scenes[-1])
+            f = draw(st.sampled_from([0.25, 0.5, 2.0, 3.0]))
+            c["noise"] = [v * f for v in c["noise"]]
+            c["data"] = draw(st.lists(gens.reals(-10, 10), min_size=len(c["data"]), max_size=len(c["data"])))
+        elif kind == "new-objects":
+            c = _json_copy(first)
+            n = len(c["data"])
+            c["objs"] = [draw(scene.obj_specs(n, **kw["obj_kwargs"])) for _ in range(draw(st.integers(1, 2)))]
+            force_reg(c)
+        else:
+            c = force_reg(draw(scene.scenarios(**kw)))
+        scenes.append(c)
+        kinds.append(kind)
+    for c, kd in zip(scenes, kinds):
+        c["kind"] = kd
+        c["settings"] = None if draw(st.integers(0, 2)) > 0 else {"use_w_tilde": draw(st.booleans()), "positive_only": draw(st.booleans())}
+    return {"scenes": scenes}
 
 
 REG_TYPES = ("constant", "constant", "constant_zeroth", "gaussian_kernel", "exponential_kernel")
@@ -318,8 +439,9 @@ DEPENDS = {"residual_map": (), "signal_to_noise_map": (), "normalized_residual_m
            "log_likelihood": ("chi_squared", "noise_normalization")}
 
 
-def observe_fit(fit, m, mode, ref, tol, ctx, maps=MAPS):
-    """Compare every map / scalar of one fit object with the oracle; returns (observed scalars, failed names)."""
+def observe_fit(fit, m, mode, ref, tol, ctx, maps=MAPS, prefix="fit", maps_out=None):
+    """Compare every map / scalar of one fit object with the oracle; returns (observed scalars, failed names).
+    `maps_out` (dict) receives the observed maps on the unmasked pixels."""
     un = ~m
     n = int(un.sum())
     want_shape = m.shape if mode == "native" else (n,)
@@ -329,12 +451,14 @@ def observe_fit(fit, m, mode, ref, tol, ctx, maps=MAPS):
             failed.add(name)
             continue
         arr = np.asarray(getattr(fit, name))
-        key = "fit/%s/%s" % (mode, name)
+        key = "%s/%s/%s" % (prefix, mode, name)
         if arr.shape != want_shape:
             failed.add(name)
             ctx.fail(key + "/shape", "%s has shape %s, expected %s" % (name, arr.shape, want_shape))
             continue
         got = np.asarray(arr[un] if mode == "native" else arr, dtype=float)
+        if maps_out is not None:
+            maps_out[name] = got
         if name == "residual_flux_fraction_map":
             ok = ref["_rff_ok"]
             ctx.tie(int((~ok).sum()))
@@ -358,7 +482,7 @@ def observe_fit(fit, m, mode, ref, tol, ctx, maps=MAPS):
         if any(d in failed for d in DEPENDS[name]):
             failed.add(name)
             continue
-        if not _cmp(ctx, out[name], ref[name], tol[name], "fit/%s/%s" % (mode, name), "%s vs definition on values[~mask]" % name):
+        if not _cmp(ctx, out[name], ref[name], tol[name], "%s/%s/%s" % (prefix, mode, name), "%s vs definition on values[~mask]" % name):
             failed.add(name)
     return out, failed
 
@@ -449,6 +573,13 @@ def body_util(case, ctx):
         return np.array(v, dtype=float)
 
     v = {nm: np.asarray(case[nm], dtype=float) for nm in ("data", "noise", "model", "resid", "chimap")}
+    scale = float(case.get("scale", 1.0))
+    if scale != 1.0:
+        # the same image in other units: every dimensional input multiplied (chimap is dimensionless); magnitudes are
+        # floored first so that the unit change cannot underflow
+        for nm in ("data", "noise", "model", "resid"):
+            v[nm] = np.where(v[nm] == 0.0, 0.0, np.sign(v[nm]) * np.maximum(np.abs(v[nm]), FLOOR)) * scale
+    ctx.label("scale:%s" % ("1" if scale == 1.0 else "small" if scale < 1.0 else "large"))
     sr = np.abs(v["data"]) + np.abs(v["model"])
     want = {
         "residual_map": (v["data"] - v["model"], RT * sr),
@@ -537,6 +668,89 @@ def _ld_tol(ref, n, cond):
     return max(1e-9 * abs(ref), 50.0 * max(n, 1) * EPS * cond)
 
 
+def _reg_index(objs, regs):
+    """Index set of the parameters of regularized objects, from the case (not from the inversion)."""
+    idx, start = [], 0
+    for o, has_reg in zip(objs, regs):
+        k = int(np.asarray(o.mapping_matrix).shape[1])
+        if has_reg:
+            idx.extend(range(start, start + k))
+        start += k
+    return np.asarray(idx, dtype=int), start
+
+
+def check_terms(ctx, inv, fh, h, s, idx, start, rl, prefix):
+    """Compare the three inversion terms with s_r^T H_rr s_r, slogdet((F+H)_rr), slogdet(H_rr).  Returns None when the case
+    ends here (exception / ill-conditioning, counted), else a dict with the references, tolerances and `ok`."""
+    from autoarray import exc
+    sr = s[idx]
+    h_rr = h[np.ix_(idx, idx)]
+    fh_rr = fh[np.ix_(idx, idx)]
+    reg_ref = float(sr @ h_rr @ sr)
+    reg_tol = 1e-10 * float(np.abs(sr) @ np.abs(h_rr) @ np.abs(sr)) + 1e-300
+    sg_fh, ld_fh, c_fh, amb_fh = _logdet(fh_rr)
+    sg_h, ld_h, c_h, amb_h = _logdet(h_rr)
+    nr = len(idx)
+    ctx.label("cond(H):%s" % ("<1e6" if c_h < 1e6 else "1e6..1e10" if c_h < 1e10 else ">=1e10") if nr else "cond(H):empty")
+    skip_ld = (not np.isfinite(c_fh)) or (not np.isfinite(c_h)) or max(c_fh, c_h) > 1e13 or sg_fh <= 0 or sg_h <= 0
+    tol_fh = _ld_tol(ld_fh, nr, c_fh) + 2.0 * amb_fh
+    tol_h = _ld_tol(ld_h, nr, c_h) + 2.0 * amb_h
+    ctx.label("symmetry-ambiguity:%s" % ("some" if max(amb_fh, amb_h) > 1e-9 else "none"))
+
+    def term(name):
+        try:
+            return float(getattr(inv, name))
+        except exc.InversionException:
+            ctx.check(max(c_fh, c_h) > 1e12 or not np.isfinite(max(c_fh, c_h)), "%s/%s/unexpected-InversionException" % (prefix, name),
+                      "%s raised InversionException with cond((F+H)_rr)=%.2e cond(H_rr)=%.2e, %d regularized of %d parameters" % (
+                          name, c_fh, c_h, nr, start))
+            return None
+
+    got_reg = term("regularization_term")
+    got_fh = term("log_det_curvature_reg_matrix_term")
+    got_h = term("log_det_regularization_matrix_term")
+    if got_reg is None or got_fh is None or got_h is None:
+        ctx.tie(); ctx.label("raised:InversionException")
+        return None
+    ok = _cmp(ctx, got_reg, reg_ref, reg_tol, "%s/regularization_term/%s" % (prefix, rl), "s_r^T H_rr s_r over regularized parameters")
+    if skip_ld:
+        ctx.tie(); ctx.label("cond>1e13:logdet-skipped")
+        return None
+    ok &= _cmp(ctx, got_fh, ld_fh, tol_fh, "%s/log_det_curvature_reg_matrix_term/%s" % (prefix, rl),
+               "log det (F+H) over regularized parameters (cond %.1e)" % c_fh)
+    ok &= _cmp(ctx, got_h, ld_h, tol_h, "%s/log_det_regularization_matrix_term/%s" % (prefix, rl),
+               "log det H over regularized parameters (cond %.1e)" % c_h)
+    return {"ok": ok, "reg": reg_ref, "reg_tol": reg_tol, "ld_fh": ld_fh, "tol_fh": tol_fh, "ld_h": ld_h, "tol_h": tol_h,
+            "got": (got_reg, got_fh, got_h)}
+
+
+def check_evidence(ctx, fit, t, ref, tol, bad, rl, key_prefix, out):
+    """Composition of the evidence from checked terms; fills `out`, returns the set of failed scalar names."""
+    chi2, nn = ref["chi_squared"], ref["noise_normalization"]
+    ev_ref = -0.5 * (chi2 + t["reg"] + t["ld_fh"] - t["ld_h"] + nn)
+    ev_tol = 0.5 * (tol["chi_squared"] + t["reg_tol"] + t["tol_fh"] + t["tol_h"] + tol["noise_normalization"])
+    lr_ref = -0.5 * (chi2 + t["reg"] + nn)
+    lr_tol = 0.5 * (tol["chi_squared"] + t["reg_tol"] + tol["noise_normalization"])
+    failed = set()
+    out["log_evidence"] = float(fit.log_evidence)
+    out["log_likelihood_with_regularization"] = float(fit.log_likelihood_with_regularization)
+    out["figure_of_merit"] = float(fit.figure_of_merit)
+    if t["ok"] and not ({"chi_squared", "noise_normalization"} & bad):
+        # the terms are right: the composition must be too
+        if not _cmp(ctx, out["log_evidence"], ev_ref, ev_tol, "%s/log_evidence/%s" % (key_prefix, rl),
+                    "-(chi2 + sHs + logdet(F+H) - logdet(H) + norm)/2 = -(%.6g + %.6g + %.6g - %.6g + %.6g)/2" % (
+                        chi2, t["reg"], t["ld_fh"], t["ld_h"], nn)):
+            failed |= {"log_evidence", "figure_of_merit"}
+        if not _cmp(ctx, out["log_likelihood_with_regularization"], lr_ref, lr_tol,
+                    "%s/log_likelihood_with_regularization" % key_prefix, "-(chi2 + sHs + norm)/2"):
+            failed.add("log_likelihood_with_regularization")
+    else:
+        failed |= {"log_evidence", "log_likelihood_with_regularization", "figure_of_merit"}
+    ctx.check(_same(out["figure_of_merit"], out["log_evidence"]), "%s/figure_of_merit-not-log-evidence" % key_prefix,
+              "inversion present: figure_of_merit %r != log_evidence %r" % (out["figure_of_merit"], out["log_evidence"]))
+    return failed
+
+
 def body_evidence(case, ctx):
     import autoarray as aa
     from autoarray import exc
@@ -552,15 +766,8 @@ def body_evidence(case, ctx):
     ctx.nt(rl == "partial" or (bool(m.any()) and _nonzero_garbage(case["g1"])))
     settings = aa.SettingsInversion(use_w_tilde=case["use_w_tilde"], use_positive_only_solver=case["positive_only"],
                                     force_edge_pixels_to_zeros=False, no_regularization_add_to_curvature_diag_value=1e-3)
-    inv = aa.Inversion(dataset=sc.dataset, linear_obj_list=sc.objs, settings=settings)
-    # index set of regularized parameters, from the case (not from the inversion)
-    idx, start = [], 0
-    for o, has_reg in zip(sc.objs, regs):
-        k = int(np.asarray(o.mapping_matrix).shape[1])
-        if has_reg:
-            idx.extend(range(start, start + k))
-        start += k
-    idx = np.asarray(idx, dtype=int)
+    inv = aa.Inversion(dataset=sc.dataset, linear_obj_list=sc.objs, settings=settings, preloads=aa.Preloads())
+    idx, start = _reg_index(sc.objs, regs)
     # inputs of the composition: copied before any derived quantity is read
     fh = np.array(inv.curvature_reg_matrix, dtype=float).copy()
     h = np.array(inv.regularization_matrix, dtype=float).copy()
@@ -577,53 +784,13 @@ def body_evidence(case, ctx):
     if not (np.all(np.isfinite(s)) and np.all(np.isfinite(model))):
         ctx.tie(); ctx.label("reconstruction:non-finite-skipped")
         return
-    sr = s[idx]
-    h_rr = h[np.ix_(idx, idx)]
-    fh_rr = fh[np.ix_(idx, idx)]
-    reg_ref = float(sr @ h_rr @ sr)
-    reg_tol = 1e-10 * float(np.abs(sr) @ np.abs(h_rr) @ np.abs(sr)) + 1e-300
-    sg_fh, ld_fh, c_fh, amb_fh = _logdet(fh_rr)
-    sg_h, ld_h, c_h, amb_h = _logdet(h_rr)
-    nr = len(idx)
-    ctx.label("cond(H):%s" % ("<1e6" if c_h < 1e6 else "1e6..1e10" if c_h < 1e10 else ">=1e10") if nr else "cond(H):empty")
-    skip_ld = (not np.isfinite(c_fh)) or (not np.isfinite(c_h)) or max(c_fh, c_h) > 1e13 or sg_fh <= 0 or sg_h <= 0
-    tol_fh = _ld_tol(ld_fh, nr, c_fh) + 2.0 * amb_fh
-    tol_h = _ld_tol(ld_h, nr, c_h) + 2.0 * amb_h
-    ctx.label("symmetry-ambiguity:%s" % ("some" if max(amb_fh, amb_h) > 1e-9 else "none"))
-
-    def term(name, key):
-        try:
-            return float(getattr(inv, name))
-        except exc.InversionException:
-            ctx.check(max(c_fh, c_h) > 1e12 or not np.isfinite(max(c_fh, c_h)), "evidence/%s/unexpected-InversionException" % key,
-                      "%s raised InversionException with cond((F+H)_rr)=%.2e cond(H_rr)=%.2e, %d regularized of %d parameters" % (
-                          name, c_fh, c_h, nr, start))
-            return None
-
-    got_reg = term("regularization_term", "regularization_term")
-    got_fh = term("log_det_curvature_reg_matrix_term", "log_det_curvature_reg_matrix_term")
-    got_h = term("log_det_regularization_matrix_term", "log_det_regularization_matrix_term")
-    if got_reg is None or got_fh is None or got_h is None:
-        ctx.tie(); ctx.label("raised:InversionException")
+    t = check_terms(ctx, inv, fh, h, s, idx, start, rl, "evidence")
+    if t is None:
         return
-    terms_ok = _cmp(ctx, got_reg, reg_ref, reg_tol, "evidence/regularization_term/%s" % rl, "s_r^T H_rr s_r over regularized parameters")
-    if skip_ld:
-        ctx.tie(); ctx.label("cond>1e13:logdet-skipped")
-        return
-    terms_ok &= _cmp(ctx, got_fh, ld_fh, tol_fh, "evidence/log_det_curvature_reg_matrix_term/%s" % rl,
-                     "log det (F+H) over regularized parameters (cond %.1e)" % c_fh)
-    terms_ok &= _cmp(ctx, got_h, ld_h, tol_h, "evidence/log_det_regularization_matrix_term/%s" % rl,
-                     "log det H over regularized parameters (cond %.1e)" % c_h)
-
     # the fit: data seen by the fit = case data (+ sky - sky), model = mapped reconstructed data
     sky = float(case["sky"])
     data_in = np.asarray(case["data"], dtype=float) + sky if sky != 0.0 else np.asarray(case["data"], dtype=float)
     ref, tol = reference(data_in, case["noise"], model, sky)
-    chi2, nn = ref["chi_squared"], ref["noise_normalization"]
-    ev_ref = -0.5 * (chi2 + reg_ref + ld_fh - ld_h + nn)
-    ev_tol = 0.5 * (tol["chi_squared"] + reg_tol + tol_fh + tol_h + tol["noise_normalization"])
-    lr_ref = -0.5 * (chi2 + reg_ref + nn)
-    lr_tol = 0.5 * (tol["chi_squared"] + reg_tol + tol["noise_normalization"])
     scal, failed = {}, set()
     for mode, g in (("slim", None), ("native", case["g1"]), ("native2", case["g2"])):
         if mode == "slim":
@@ -633,28 +800,235 @@ def body_evidence(case, ctx):
         md = "slim" if mode == "slim" else "native"
         out, bad = observe_fit(fit, m, md, ref, tol, ctx, maps=MAPS[:4])  # residual flux fraction: sub-check fit
         failed |= bad
-        out["log_evidence"] = float(fit.log_evidence)
-        out["log_likelihood_with_regularization"] = float(fit.log_likelihood_with_regularization)
-        out["figure_of_merit"] = float(fit.figure_of_merit)
-        if terms_ok and not ({"chi_squared", "noise_normalization"} & bad):
-            # the terms are right: the composition must be too
-            if not _cmp(ctx, out["log_evidence"], ev_ref, ev_tol, "evidence/%s/log_evidence/%s" % (md, rl),
-                        "-(chi2 + sHs + logdet(F+H) - logdet(H) + norm)/2 = -(%.6g + %.6g + %.6g - %.6g + %.6g)/2" % (
-                            chi2, reg_ref, ld_fh, ld_h, nn)):
-                failed |= {"log_evidence", "figure_of_merit"}
-            if not _cmp(ctx, out["log_likelihood_with_regularization"], lr_ref, lr_tol,
-                        "evidence/%s/log_likelihood_with_regularization" % md, "-(chi2 + sHs + norm)/2"):
-                failed.add("log_likelihood_with_regularization")
-        else:
-            failed |= {"log_evidence", "log_likelihood_with_regularization", "figure_of_merit"}
-        ctx.check(_same(out["figure_of_merit"], out["log_evidence"]), "evidence/%s/figure_of_merit-not-log-evidence" % md,
-                  "inversion present: figure_of_merit %r != log_evidence %r" % (out["figure_of_merit"], out["log_evidence"]))
+        failed |= check_evidence(ctx, fit, t, ref, tol, bad, rl, "evidence/%s" % md, out)
         scal[mode] = out
     _metamorphic(ctx, scal["native"], scal["native2"], "evidence", failed)
 
 
+# ---------------------------------------------------------------------------------------------
+# sub-check: multi (several inversions + fits in one process through the default arguments)
+# ---------------------------------------------------------------------------------------------
+def _normal_equations(case, sc, eps):
+    """D, F (+eps on unregularized diagonals) and H from an independent convolution operator and the linear objects
+    themselves - nothing here passes through an inversion, its preloads or its settings."""
+    from scipy.linalg import block_diag
+    from vp.ref import conv as refconv
+    m = np.asarray(case["mask"], dtype=bool)
+    a_mask, _, _ = refconv.operators(m, np.asarray(case["kernel"], dtype=float))
+    mats = [np.asarray(o.mapping_matrix, dtype=float) for o in sc.objs]
+    b = a_mask @ np.hstack(mats)
+    d = np.asarray(case["data"], dtype=float); n = np.asarray(case["noise"], dtype=float)
+    dvec = b.T @ (d / n ** 2)
+    bn = b / n[:, None]
+    f = bn.T @ bn
+    start = 0
+    for o, mat in zip(sc.objs, mats):
+        k = mat.shape[1]
+        if o.regularization is None:
+            f[np.arange(start, start + k), np.arange(start, start + k)] += eps
+        start += k
+    h = block_diag(*[np.asarray(o.regularization_matrix, dtype=float) for o in sc.objs])
+    scale_d = float((np.abs(b).T @ np.abs(d / n ** 2)).max()) + 1e-300
+    scale_f = float((np.abs(bn).T @ np.abs(bn)).max()) + eps
+    return dvec, f, h, scale_d, scale_f
+
+
+def _shared_defaults():
+    """Every Preloads / SettingsInversion instance bound as a default argument of the inversion entry points."""
+    import inspect
+    from autoarray.preloads import Preloads
+    from autoarray.inversion.inversion.settings import SettingsInversion
+    from autoarray.inversion.inversion import factory, inversion_util
+    from autoarray.inversion.inversion.abstract import AbstractInversion
+    from autoarray.inversion.inversion.imaging.abstract import AbstractInversionImaging
+    from autoarray.inversion.inversion.imaging.mapping import InversionImagingMapping
+    from autoarray.inversion.inversion.imaging.w_tilde import InversionImagingWTilde
+    from autoarray.inversion.pixelization.mesh.rectangular import Rectangular
+    fns = [("inversion_from", factory.inversion_from), ("inversion_imaging_from", factory.inversion_imaging_from),
+           ("AbstractInversion", AbstractInversion.__init__), ("AbstractInversionImaging", AbstractInversionImaging.__init__),
+           ("InversionImagingMapping", InversionImagingMapping.__init__), ("InversionImagingWTilde", InversionImagingWTilde.__init__),
+           ("Rectangular.mapper_grids_from", Rectangular.mapper_grids_from)]
+    for name, fn in inspect.getmembers(inversion_util, inspect.isfunction):
+        fns.append(("inversion_util." + name, fn))
+    out = []
+    for name, fn in fns:
+        for pname, par in inspect.signature(fn).parameters.items():
+            if isinstance(par.default, (Preloads, SettingsInversion)):
+                out.append(("%s(%s=)" % (name, pname), par.default))
+    return out
+
+
+def _attr_repr(v):
+    if v is None or isinstance(v, (bool, int, float, str)):
+        return repr(v)
+    try:
+        a = np.asarray(v)
+        return "%s%s" % (type(v).__name__, a.shape)
+    except Exception:
+        return type(v).__name__
+
+
+def check_shared_defaults(ctx):
+    for where, obj in _shared_defaults():
+        fresh = type(obj)()
+        a, b = vars(obj), vars(fresh)
+        for k in sorted(set(a) | set(b)):
+            same = (k in a and k in b) and (a[k] is b[k] or (type(a[k]) is type(b[k]) and _attr_repr(a[k]) == _attr_repr(b[k])
+                                                             and not isinstance(a[k], np.ndarray) and a[k] == b[k]))
+            ctx.check(same, "multi/shared-default-mutated/%s.%s" % (type(obj).__name__, k),
+                      lambda: "default argument %s: attribute %s is %s, a fresh %s() has %s" % (
+                          where, k, _attr_repr(a.get(k, "<missing>")), type(obj).__name__, _attr_repr(b.get(k, "<missing>"))))
+
+
+def _multi_inversion(aa, c, sc, isolated):
+    st_ = c["settings"]
+    kw = {}
+    if st_ is not None:
+        kw["settings"] = aa.SettingsInversion(use_w_tilde=st_["use_w_tilde"], use_positive_only_solver=st_["positive_only"],
+                                              force_edge_pixels_to_zeros=False, no_regularization_add_to_curvature_diag_value=1e-3)
+    elif isolated:
+        kw["settings"] = aa.SettingsInversion()
+    if isolated:
+        kw["preloads"] = aa.Preloads()
+    return aa.Inversion(dataset=sc.dataset, linear_obj_list=sc.objs, **kw)
+
+
+def body_multi(case, ctx):
+    import autoarray as aa
+    from autoarray import exc
+    ctx.label("scenes:%d" % len(case["scenes"]))
+    ctx.nt(len(case["scenes"]) >= 2)
+    for i, c in enumerate(case["scenes"]):
+        pos = "first" if i == 0 else "later"
+        prefix = "multi/%s" % pos
+        ctx.label("scene:%s" % c["kind"], "settings:%s" % ("omitted" if c["settings"] is None else "explicit"))
+        types = [o["type"] for o in c["objs"]]
+        ctx.label("objs:func-only" if all(t == "func" for t in types) else "objs:with-mapper")
+        m = np.asarray(c["mask"], dtype=bool)
+        sc = scene.build_scene(c)
+        regs = [o.get("reg") is not None for o in c["objs"]]
+        rl = "all" if all(regs) else ("none" if not any(regs) else "partial")
+        ctx.label("reglist:%s" % rl)
+        # through the factory with `preloads` omitted (and `settings` omitted in half of the scenes)
+        inv = _multi_inversion(aa, c, sc, isolated=False)
+        idx, start = _reg_index(sc.objs, regs)
+        dvec, f_ref, h_ref, scale_d, scale_f = _normal_equations(c, sc, float(inv.settings.no_regularization_add_to_curvature_diag_value))
+        hmax = float(np.abs(h_ref).max()) if h_ref.size else 0.0
+        fh = np.array(inv.curvature_reg_matrix, dtype=float).copy()
+        h = np.array(inv.regularization_matrix, dtype=float).copy()
+        d_got = np.array(inv.data_vector, dtype=float).copy()
+        ok = _cmp(ctx, h, h_ref, 1e-12 * hmax, prefix + "/regularization_matrix", "regularization matrix vs block_diag of the objects' own matrices")
+        ok &= _cmp(ctx, fh, f_ref + h_ref, 1e-8 * (scale_f + hmax), prefix + "/curvature_reg_matrix", "F+H vs B^T N^-1 B (+eps) + H of this scene")
+        ok &= _cmp(ctx, d_got, dvec, 1e-8 * scale_d, prefix + "/data_vector", "data vector vs B^T N^-1 d of this scene")
+        if not ok:
+            continue
+        try:
+            s = np.array(inv.reconstruction, dtype=float).copy()
+            model = np.array(inv.mapped_reconstructed_data, dtype=float).copy()
+        except exc.InversionException:
+            ctx.tie(); ctx.label("raised:InversionException@reconstruction")
+            continue
+        if not (np.all(np.isfinite(s)) and np.all(np.isfinite(model))):
+            ctx.tie(); ctx.label("reconstruction:non-finite-skipped")
+            continue
+        t = check_terms(ctx, inv, fh, h_ref, s, idx, start, rl, prefix)
+        if t is None:
+            continue
+        ref, tol = reference(c["data"], c["noise"], model, 0.0)
+        fit = _slim_fit(sc.mask, c["data"], c["noise"], model, 0.0, inversion=inv)
+        out, bad = observe_fit(fit, m, "slim", ref, tol, ctx, maps=MAPS[:4], prefix=prefix)
+        failed = bad | check_evidence(ctx, fit, t, ref, tol, bad, rl, prefix, out)
+        # differential: the same scene solved in isolation (fresh objects, explicit fresh Preloads and settings)
+        if t["ok"] and not failed:
+            sc2 = scene.build_scene(c)
+            inv2 = _multi_inversion(aa, c, sc2, isolated=True)
+            try:
+                s2 = np.array(inv2.reconstruction, dtype=float)
+                twin = (float(inv2.regularization_term), float(inv2.log_det_curvature_reg_matrix_term),
+                        float(inv2.log_det_regularization_matrix_term))
+            except exc.InversionException:
+                ctx.fail(prefix + "/isolated-twin-raises", "the same scene raises InversionException when solved in isolation")
+                continue
+            _cmp(ctx, s, s2, 1e-9 * (float(np.abs(s2).max()) + 1e-300), prefix + "/reconstruction-differs-from-isolated",
+                 "reconstruction through the default arguments vs the same scene in isolation")
+            for nm, a, b, tl in zip(("regularization_term", "log_det_curvature_reg_matrix_term", "log_det_regularization_matrix_term"),
+                                    t["got"], twin, (t["reg_tol"], t["tol_fh"], t["tol_h"])):
+                _cmp(ctx, a, b, tl, "%s/%s-differs-from-isolated" % (prefix, nm), "%s through the default arguments vs in isolation" % nm)
+    check_shared_defaults(ctx)
+
+
+# ---------------------------------------------------------------------------------------------
+# sub-check: scale (the same image in other units)
+# ---------------------------------------------------------------------------------------------
+DIMENSIONLESS = ("normalized_residual_map", "chi_squared_map", "signal_to_noise_map", "residual_flux_fraction_map")
+
+
+def body_scale(case, ctx):
+    m, mask = _mask_obj(case)
+    un = ~m
+    n = int(un.sum())
+    ctx.label("data:%s" % case["data_kind"], "model:%s" % case["model_kind"], "sky:nonzero" if case["sky"] != 0.0 else "sky:zero",
+              "masked:none" if not m.any() else "masked:some")
+    ctx.nt(True)
+    base = {nm: np.asarray(case[nm], dtype=float) for nm in ("data", "noise", "model")}
+    sky0 = float(case["sky"])
+    ref0, tol0 = reference(base["data"], base["noise"], base["model"], sky0)
+    obs0 = {}
+    for mode in ("slim", "native"):
+        fit = _slim_fit(mask, base["data"], base["noise"], base["model"], sky0) if mode == "slim" else \
+            _native_fit(mask, m, base["data"], base["noise"], base["model"], sky0, case["g1"])
+        maps = {}
+        scal, bad = observe_fit(fit, m, mode, ref0, tol0, ctx, maps_out=maps)
+        obs0[mode] = (maps, scal, bad)
+    for c in case["scales"]:
+        c = float(c)
+        pow2 = math.frexp(c)[0] == 0.5
+        regime = "small" if c < 1.0 else "large"
+        ctx.label("scale:%s-%s" % (regime, "pow2" if pow2 else "nonpow"))
+        prefix = "scale-%s" % regime
+        d, s_, mo, sky = base["data"] * c, base["noise"] * c, base["model"] * c, sky0 * c
+        # garbage carried in masked pixels is left as it is: it must not matter
+        ref, tol = reference(d, s_, mo, sky)
+        for mode in ("slim", "native"):
+            fit = _slim_fit(mask, d, s_, mo, sky) if mode == "slim" else _native_fit(mask, m, d, s_, mo, sky, case["g1"])
+            maps = {}
+            scal, bad = observe_fit(fit, m, mode, ref, tol, ctx, prefix=prefix, maps_out=maps)
+            maps0, scal0, bad0 = obs0[mode]
+            # metamorphic: dimensionless quantities do not change, the residual scales.  Exact powers of two commute with
+            # every floating-point operation involved (no under/overflow by construction) -> rtol 1e-12, atol 0; other
+            # factors round the inputs, so the operand-relative tolerances of the base oracle apply (twice)
+            rel_bad = set()
+            for name in ("residual_map",) + DIMENSIONLESS:
+                if name in bad or name in bad0 or name not in maps or name not in maps0 or any(x in rel_bad for x in DEPENDS[name]):
+                    rel_bad.add(name)
+                    continue
+                a = maps[name] / c if name == "residual_map" else maps[name]
+                b = maps0[name]
+                sel = ref["_rff_ok"] & ref0["_rff_ok"] if name == "residual_flux_fraction_map" else np.ones(n, dtype=bool)
+                tl = 1e-12 * np.abs(b) if pow2 else 2.0 * tol0[name] + 1e-12 * np.abs(b)
+                if not _cmp(ctx, a[sel], b[sel], tl[sel], "%s/%s/%s/not-scale-invariant" % (prefix, mode, name),
+                            "%s after multiplying data, noise, model and sky by %r vs before" % (name, c)):
+                    rel_bad.add(name)
+            for name in ("chi_squared", "reduced_chi_squared"):
+                if name in bad or name in bad0 or any(x in rel_bad for x in DEPENDS[name]):
+                    rel_bad.add(name)
+                    continue
+                tl = 1e-12 * abs(scal0[name]) if pow2 else 2.0 * tol0[name] + 1e-12 * abs(scal0[name])
+                if not _cmp(ctx, scal[name], scal0[name], tl, "%s/%s/%s/not-scale-invariant" % (prefix, mode, name),
+                            "%s after multiplying data, noise, model and sky by %r vs before" % (name, c)):
+                    rel_bad.add(name)
+            if "noise_normalization" not in bad and "noise_normalization" not in bad0:
+                shift = 2.0 * n * math.log(c)
+                tl = 1e-12 * (abs(shift) + float(np.abs(np.log(2 * np.pi * base["noise"] ** 2)).sum())) + 1e-13 * n + tol0["noise_normalization"]
+                _cmp(ctx, scal["noise_normalization"] - scal0["noise_normalization"], shift, tl,
+                     "%s/%s/noise_normalization/not-shifted-by-2n-log-scale" % (prefix, mode),
+                     "noise normalization changes by 2 n log(%r) when the units change" % c)
+
+
 SUBCHECKS = [
-    SubCheck("fit", body_fit, strategy=fit_cases(), examples={"quick": 3200, "thorough": 48000}, shards={"quick": 16, "thorough": 16}),
-    SubCheck("util", body_util, strategy=util_cases(), examples={"quick": 2400, "thorough": 32000}, shards={"quick": 16, "thorough": 16}),
-    SubCheck("evidence", body_evidence, strategy=evidence_cases(), examples={"quick": 2400, "thorough": 32000}, shards={"quick": 16, "thorough": 16}),
+    SubCheck("scale", body_scale, strategy=scale_cases(), examples={"quick": 1600, "thorough": 24000}, shards={"quick": 16, "thorough": 16}),
+    SubCheck("multi", body_multi, strategy=multi_cases(), examples={"quick": 640, "thorough": 8000}, shards={"quick": 16, "thorough": 16}),
+    SubCheck("fit", body_fit, strategy=fit_cases(), examples={"quick": 2400, "thorough": 48000}, shards={"quick": 16, "thorough": 16}),
+    SubCheck("util", body_util, strategy=util_cases(), examples={"quick": 2000, "thorough": 32000}, shards={"quick": 16, "thorough": 16}),
+    SubCheck("evidence", body_evidence, strategy=evidence_cases(), examples={"quick": 2000, "thorough": 32000}, shards={"quick": 16, "thorough": 16}),
 ]
